@@ -20,7 +20,9 @@
                                       default values, or a non-presence container
      chc_okb / schema_okb             sanity of the schema encoding (tools/treeenc.py): one (choice, case) pair carries the
                                       same flags everywhere, one default case per choice; keys lead
-   Not modelled: when / must / unique / leafref (the generated schemas have none), several modules, opaque nodes.
+   Not modelled here: must / unique / leafref, several modules, opaque nodes; `when` is not in Implicit.v (the schemas of
+   component dfltmodel have none) - only its resolution loop is modelled, separately, in WhenRes.v (theorems
+   C07_when_resolution_* at the end; no combined theorem).
    With LYD_VALIDATE_PRESENT an EMPTY tree is not validated at all (no module has data): validate_all sch [] = Ok ([], []).
 
    Deviations of libyang from the full statements (each with a witness below; all are listed findings):
@@ -45,7 +47,7 @@ Local Open Scope N_scope.
      (a) normalb sch g. Discharged by proof for edited input (C07_validate_idempotent_edited, any tree after edits that
          flag what they touch) and for freshly parsed input (_fresh); NOT dischargeable in general: the C-side reason is
          the open finding dflt-leaflist-partial (lyd_new_implicit adds leaf-list defaults only when NO instance exists;
-         replayed on every run, still present at libyang c545a4e) - the former second reason, dflt-nested-case-leftover,
+         replayed on every run and still reproduced) - the former second reason, dflt-nested-case-leftover,
          was removed by 357db45 and its hypothesis went with it. The later fixes do not bear on (a): 7ad8277 concerns
          the ORDER of top-level nodes (C07_validate_canon / property C04), 7b3176d, 6d13b8c, 3ea8124 concern `when`,
          which Implicit.v does not model (see WhenRes.v below).
@@ -104,7 +106,7 @@ Print Assumptions C07_implicit_exact_partial.
    i.e. exactly three input classes
      (1) an INCOMPLETE set of default-flagged leaf-list instances, or default instances beside an OLD explicit one:
          the conclusion is FALSE there (C07_implicit_exact_refuted_leaflist; C defect dflt-leaflist-partial, open,
-         still reproduced at c545a4e) - this part of the hypothesis cannot go before libyang changes;
+         its replay still fails) - this part of the hypothesis cannot go before libyang changes;
      (2) nodes that are new AND default: no counterexample is known (about 10% of the generated histories are of
          this class and all reach the normal form); what is missing is the closed form of the node loop of
          lyd_validate_new (ImplicitP.vnew_loop_form) for new default nodes, which the loop treats as superseding
@@ -284,7 +286,7 @@ Print Assumptions C07_change_set_exact_refuted.
    WHAT SEPARATES IT FROM THE FULL STATEMENT "for every tree": wd_wf_forest, three clauses -
      (1) no explicit leaf-list instance equal to ONE of several default values while the leaf-list differs from its
          default: the conclusion is FALSE there (C07_wd_modes_rfc6243_refuted; C defect wd-leaflist-partial-default,
-         lyd_is_default works per instance; open, still reproduced at c545a4e) - cannot go before libyang changes;
+         lyd_is_default works per instance; open, its replay still fails) - cannot go before libyang changes;
      (2) sound default flags: a property of the producer, proved for validation and lyd_new_implicit_all
          (C07_dflt_flag_sound, _implicit) - for trees made by these two the clause could be discharged, the lemma
          "validate_all preserves / establishes wd_wf_forest" is not written;
